@@ -190,14 +190,19 @@ func (c *Ctx) runTop(fn *ssa.Function, spec *FuncSpec, useGaps bool) (err error)
 			if len(parts) > 1 {
 				nm = fmt.Sprintf("%s.%d", name, j+1)
 			}
-			o := c.oblige(exit, "ensures", nm, c.evalBool(post, pe), "ensures "+exprString(pe))
-			o.Inputs = c.replayInputs(fr, spec, result)
+			c.oblige(exit, "ensures", nm, c.evalBool(post, pe), "ensures "+exprString(pe))
 		}
 	}
 	for i, pc := range pconds {
 		c.oblige(exit, "panics_if", fmt.Sprintf("%s/panics_if#%d", c.fn, i+1), not(pc), "normal return implies the panic condition did not hold")
 	}
 	c.frameCheck(fr, spec, exit)
+	inputs := c.replayInputs(fr, spec, result, exit)
+	for _, o := range c.obls {
+		if o.Kind == "ensures" || o.Kind == "panics_if" || strings.HasPrefix(o.Kind, "safe/") {
+			o.Inputs, o.Sig = inputs, fn.Signature
+		}
+	}
 	return nil
 }
 
@@ -314,13 +319,48 @@ func (c *Ctx) frameCheck(fr *Frame, spec *FuncSpec, exit *State) {
 }
 
 // replayInputs lists the values a replay needs from a model.
-func (c *Ctx) replayInputs(fr *Frame, spec *FuncSpec, result Val) []ReplayInput {
-	var out []ReplayInput
+func (c *Ctx) replayInputs(fr *Frame, spec *FuncSpec, result Val, exit *State) (out []ReplayInput) {
+	defer func() {
+		if r := recover(); r != nil {
+			out = nil
+		}
+	}()
 	for i, p := range fr.fn.Params {
-		out = append(out, ReplayInput{Name: spec.Params[i], Val: fr.vals[p]})
+		in := ReplayInput{Name: spec.Params[i], Val: fr.vals[p]}
+		if pt, ok := under(p.Type()).(*types.Pointer); ok && flatStruct(pt.Elem()) {
+			pre := c.loadStruct(c.st0, pt.Elem(), fr.vals[p].T)
+			post := c.loadStruct(exit, pt.Elem(), fr.vals[p].T)
+			in.Pre, in.Post = &pre, &post
+		}
+		out = append(out, in)
 	}
 	out = append(out, ReplayInput{Name: "$result", Val: result})
 	return out
+}
+
+// flatStruct: a struct whose fields are integers, booleans, arrays of integers or flat structs.
+func flatStruct(t types.Type) bool {
+	if classOf(t) != CStruct {
+		return false
+	}
+	s := under(t).(*types.Struct)
+	for i := 0; i < s.NumFields(); i++ {
+		ft := s.Field(i).Type()
+		switch classOf(ft) {
+		case CBool, CInt:
+		case CArray:
+			if classOf(under(ft).(*types.Array).Elem()) != CInt {
+				return false
+			}
+		case CStruct:
+			if !flatStruct(ft) {
+				return false
+			}
+		default:
+			return false
+		}
+	}
+	return true
 }
 
 // verifyLemma: a pure SMT lemma over the specification vocabulary.
